@@ -1,27 +1,54 @@
 /-
 C03 for the AIGER formats — write ∘ parse = id.
 
-Proved here:
-* `aig_varint_roundtrip` — `binaryUint (writeBinaryUint n ++ rest) = (n, rest)` for every
-  `n < 2^64` (all lengths 1–10; the repaired F8), with the cursor exactly behind the encoding and
-  nothing beyond it looked at;
-* `aig_varint_shape` — what the writer emits: 1–10 bytes, continuation bit on all but the last,
-  little-endian 7-bit groups of `n`;
-* `aiger_header_fields` — the writer's trimming of trailing zero header fields keeps at least five
-  fields and loses nothing but zeros (the parser reads 5–9 fields and defaults the rest to 0).
-The whole-file statements `aag_roundtrip_full`, `aig_roundtrip_full` are stated with their explicit
-domain predicates `WFaig` / `WFord` and are *not* proved; they are carried by the `aiger` engine
-(families `rt`, `layout`: the crate's writers and an independent renderer against the abstract
-value, plus `parse(write(parse t)) = parse t` on every accepted input) and instantiated below on
-concrete circuits by kernel evaluation.
+Proved here, for every literal type of at most 64 bits and every value in the explicit domain:
+* `aag_roundtrip` — `AigDomain ty a → Aag.parse ty (Aag.write a) = ok a` (the whole file is
+  consumed): header with its trimming of trailing zero fields (5–9 fields), inputs, latches with
+  all three reset forms, outputs, bad-state / constraint / justice (sizes, then literals
+  distributed over the properties) / fairness sections, and gates, symbols of all seven kinds
+  (incl. the `c<idx>` symbol vs. `c\n` comment header distinction), comment (also one ending in a
+  newline, and the empty one);
+* `aig_roundtrip` — `OrdDomain ty a →` the binary writer does not panic (`assert!`, array index)
+  and `Aig.parse ty (Aig.write a) = ok a`: the same plus latches whose reset literal is the running
+  counter, and the and-gate block with its two delta varints per gate;
+* the sub-lemmas named in DESIGN §4 C03, each for arbitrary following text: `aig_varint_roundtrip`
+  (all lengths 1–10; the repaired F8), `aig_delta_roundtrip`, `aiger_header_fields_roundtrip`
+  (`header_fields_roundtrip`), `aiger_latch_reset_roundtrip` (`latch_reset_roundtrip`),
+  `aiger_symbol_roundtrip` (the repaired F3: the index is checked against its own section),
+  `aiger_comment_roundtrip`, `aiger_uint_roundtrip` (canonical decimal text reads back).
+
+Domains (`Proof/AigerRtDomain.lean`): `AigDomain`: `2M+1 ≤ MAX_CODE`; `I+L+A ≤ M`; every literal
+`≤ 2M+1`; defined literals even and `≥ 2`; symbol index `<` the count of its own section, names
+valid UTF-8 without `\n`; comment valid UTF-8; and the written file is shorter than `usize::MAX`
+(the line bookkeeping is `usize` arithmetic).  `OrdDomain` additionally: gate `i` has
+`inputs[1] ≤ inputs[0] ≤ 2·(I+L+1+i)` (the writer's swap is then the identity and its `assert!`
+holds).  The latch reset literal of a binary latch needs no condition: it is the running counter.
+
+Not stated here: the converse `parse ∘ write ∘ parse = parse` (needs "`parse t = ok a` implies `a`
+in the domain", of which C06 proves the numeric part; the UTF-8 / no-newline part of symbol names
+is not yet exported as a theorem).  It is checked on every accepted input by the `aiger` engine.
 -/
-import Flussab.Proof.AigerVarint
-import Flussab.Proof.AigerParse
+import Flussab.Proof.AigerRtDomain
 
 namespace Flussab.C03
-open Flussab Flussab.Aiger PM
+open Flussab Flussab.Aiger Flussab.AigerRT PM
 
-/-- **Round trip of a varint.** -/
+/-- **`aag_roundtrip`.** -/
+theorem aag_roundtrip (l : LitTy) (a : Aig) (h : AigDomain l a) :
+    ∃ lr', (parseAag l).run (LR.init (writeAig a) false) = (.ok a, lr') ∧ lr'.v.rest = [] :=
+  AigerRT.aag_roundtrip l a h.wf
+
+/-- **`aig_roundtrip`.** -/
+theorem aig_roundtrip (l : LitTy) (a : OrderedAig) (h : OrdDomain l a) :
+    ∃ bs, writeOrderedAigBinary a = .ok bs ∧
+      ∃ lr', (parseAig l).run (LR.init bs false) = (.ok a, lr') ∧ lr'.v.rest = [] :=
+  AigerRT.aig_roundtrip l a h.wf
+
+/-- What the binary writer produces, explicitly. -/
+theorem aig_write_bytes (l : LitTy) (a : OrderedAig) (h : OrdDomain l a) :
+    writeOrderedAigBinary a = .ok (binaryBytes a) := h.wf.write_ok
+
+/-- **Round trip of a varint**, exact end state. -/
 theorem aig_varint_roundtrip (n : Nat) (hn : n < 2 ^ 64) (bs : VBytes)
     (hw : writeBinaryUint n = some bs) (lr : LR) (rest : VBytes) (hrest : lr.v.rest = bs ++ rest) :
     binaryUint.run lr = (.ok n,
@@ -34,104 +61,65 @@ theorem aig_varint_shape (n : Nat) (hn : n < 2 ^ 64) :
     ∃ bs, writeBinaryUint n = some bs ∧ 1 ≤ bs.length ∧ bs.length ≤ 10 ∧ Shape bs ∧ leValue bs = n :=
   writeBinaryUint_spec n hn
 
-theorem trimFieldsRev_spec (fs : List Nat) :
-    ∃ k, fs = List.replicate k 0 ++ trimFieldsRev fs ∧
-      (5 ≤ fs.length → 5 ≤ (trimFieldsRev fs).length) := by
-  induction fs with
-  | nil => exact ⟨0, rfl, fun h => h⟩
-  | cons x xs ih =>
-    cases x with
-    | zero =>
-      unfold trimFieldsRev
-      by_cases h5 : xs.length ≥ 5
-      · simp only [h5, ↓reduceIte]
-        obtain ⟨k, hk, hl⟩ := ih
-        refine ⟨k + 1, ?_, fun _ => hl h5⟩
-        rw [List.replicate_succ, List.cons_append, ← hk]
-      · simp only [h5, ↓reduceIte]
-        exact ⟨0, rfl, fun h => h⟩
-    | succ n =>
-      unfold trimFieldsRev
-      exact ⟨0, rfl, fun h => h⟩
+/-- `Steps N m a pre post`: from every healthy reader state (`CnfP.Good N`) whose remaining input
+is `pre`, the call `m` returns `a` and leaves a healthy state whose remaining input is `post`. -/
+abbrev Reads {α : Type} (N : Nat) (m : PM α) (a : α) (pre post : VBytes) : Prop :=
+  CnfP.Steps N m a pre post
 
-/-- `header_fields_roundtrip` at the level of the field list: `write_header` drops only trailing
-zeros and keeps at least five fields. -/
-theorem aiger_header_fields (h : Header) :
-    ∃ k, headerFields h = trimFields (headerFields h) ++ List.replicate k 0 ∧
-      5 ≤ (trimFields (headerFields h)).length ∧ (trimFields (headerFields h)).length ≤ 9 := by
-  obtain ⟨k, hk, hl⟩ := trimFieldsRev_spec (headerFields h).reverse
-  refine ⟨k, ?_, ?_, ?_⟩
-  · unfold trimFields
-    have := congrArg List.reverse hk
-    rw [List.reverse_reverse, List.reverse_append, List.reverse_replicate] at this
-    exact this
-  · unfold trimFields
-    rw [List.length_reverse]
-    exact hl (by simp [headerFields])
-  · have := congrArg List.length hk
-    unfold trimFields
-    simp only [List.length_reverse, List.length_append, List.length_replicate] at this ⊢
-    have h9 : (headerFields h).length = 9 := by simp [headerFields]
-    omega
+/-- `delta_roundtrip`: a delta within its base is read back and subtracted. -/
+theorem aig_delta_roundtrip (N code delta : Nat) (hc : code < 2 ^ 64) (hd : delta ≤ code)
+    (bs rest : VBytes) (hw : writeBinaryUint delta = some bs) :
+    Reads N (deltaCode code) (code - delta) (bs ++ rest) rest :=
+  deltaCode_steps code delta hc hd bs rest hw
 
-/-! ### the whole-file statements (domain explicit, not proved) -/
+/-- Canonical decimal text reads back (header fields, literals, sizes, symbol indices). -/
+theorem aiger_uint_roundtrip (N n : Nat) (hn : n < 2 ^ 64) (rest : VBytes)
+    (hnd : ∀ b, rest.head? = some b → isDigit b = false) :
+    Reads N uint (.ok n) (Writer.natDigits n ++ rest) rest :=
+  uint_steps n hn rest hnd
 
-def litOk (m : Nat) (x : Nat) : Prop := x ≤ 2 * m + 1
-def defOk (m : Nat) (x : Nat) : Prop := x ≤ 2 * m + 1 ∧ x % 2 = 0 ∧ 2 ≤ x
+/-- `header_fields_roundtrip`: trailing zero fields dropped by the writer (at least five kept),
+the parser reads 5–9 fields and defaults the rest to zero. -/
+theorem aiger_header_fields_roundtrip (N : Nat) (bin : Bool) (l : LitTy) (h : Header)
+    (hs : HeaderSane l h) (hsm : ∀ x ∈ headerFields h, x < 2 ^ 64) (rest : VBytes) :
+    Reads N (Header.parse bin l) h (writeHeader bin h ++ rest) rest :=
+  header_steps bin l h hs hsm rest
 
-/-- A name: valid UTF-8 without a newline. -/
-def nameOk (n : VBytes) : Prop := validUtf8 n = true ∧ 10 ∉ n
+/-- `latch_reset_roundtrip`: omitted (`0`) / ` 1` / the latch's own literal. -/
+theorem aiger_latch_reset_roundtrip (N : Nat) (p : Parser) (hp : POk p) (st : Nat)
+    (init : Option Bool) (rest : VBytes) (hst : init = none → 2 ≤ st ∧ st ≤ p.maxLit) :
+    Reads N (latchReset p st) init (writeInit init st ++ rest) rest :=
+  latchReset_steps p hp st init rest hst
 
-def symbolsOk (count : SymKind → Nat) (ss : List Symbol) : Prop :=
-  ∀ s ∈ ss, s.index < count s.kind ∧ nameOk s.name
+/-- A symbol line of any kind. -/
+theorem aiger_symbol_roundtrip (N : Nat) (p : Parser) (hsm : ∀ x ∈ headerFields p.header, x < 2 ^ 64)
+    (sym : Symbol) (hok : SymOk p.header sym) (rest : VBytes) :
+    Reads N (nextSymbol p) (some sym) (writeSymbol sym ++ rest) rest :=
+  nextSymbol_steps p hsm sym hok rest
 
-/-- Domain of the ASCII round trip for literal type `l`. -/
-structure WFaig (l : LitTy) (a : Aig) : Prop where
-  maxVar : 2 * a.maxVarIndex + 1 ≤ l.maxCode
-  vars : a.inputs.length + a.latches.length + a.gates.length ≤ a.maxVarIndex
-  inputs : ∀ x ∈ a.inputs, defOk a.maxVarIndex x
-  latches : ∀ x ∈ a.latches, defOk a.maxVarIndex x.state ∧ litOk a.maxVarIndex x.next
-  lits : ∀ x ∈ a.outputs ++ a.bad ++ a.constraints ++ a.justice.flatten ++ a.fairness,
-    litOk a.maxVarIndex x
-  gates : ∀ g ∈ a.gates, defOk a.maxVarIndex g.out ∧ litOk a.maxVarIndex g.in0 ∧
-    litOk a.maxVarIndex g.in1
-  symbols : symbolsOk (symCount
-    { maxVarIndex := a.maxVarIndex, inputCount := a.inputs.length, latchCount := a.latches.length,
-      outputCount := a.outputs.length, andGateCount := a.gates.length, badCount := a.bad.length,
-      constraintCount := a.constraints.length, justiceCount := a.justice.length,
-      fairnessCount := a.fairness.length }) a.symbols
-  comment : ∀ c, a.comment = some c → validUtf8 c = true
-  size : (writeAig a).length + 3 ≤ usizeMax
+/-- The comment (or its absence) at the end of the file. -/
+theorem aiger_comment_roundtrip (N : Nat) (p : Parser) (c : Option VBytes)
+    (hc : ∀ x, c = some x → validUtf8 x = true) :
+    Reads N (comment p) c (writeTail [] c) [] :=
+  comment_steps p c hc
+
+/-- The writer's trimming keeps at least five fields and drops only zeros. -/
+theorem aiger_header_trim (h : Header) :
+    5 ≤ (trimFields (headerFields h)).length ∧ (trimFields (headerFields h)).length ≤ 9 := by
+  unfold trimFields
+  rw [List.length_reverse]
+  have h9 : (headerFields h).reverse.length = 9 := by simp [headerFields]
+  generalize (headerFields h).reverse = fs at h9
+  match fs, h9 with
+  | [a, b, c, d, e, f, g, i, j], _ =>
+    cases a <;> cases b <;> cases c <;> cases d <;> cases e <;> simp [trimFieldsRev]
+
+/-! ### non-vacuity: the domains are inhabited by non-trivial circuits -/
+
+instance (h : Header) (s : Symbol) : Decidable (SymOk h s) := by unfold SymOk; infer_instance
 
 def okVal {α : Type} (r : Except PErr α × LR) : Option α :=
   match r.1 with | .ok a => some a | .error _ => none
-
-/-- `aag_roundtrip`: what `ascii::Writer::write_aig` writes for a well-formed `Aig` is parsed back
-to the same value. -/
-def aag_roundtrip_full : Prop :=
-  ∀ (l : LitTy) (a : Aig), WFaig l a → okVal ((parseAag l).run (LR.init (writeAig a) false)) = some a
-
-/-- Domain of the binary round trip: additionally each gate's inputs are ordered and the first is
-at most the gate's own literal (the writer's `assert!`). -/
-structure WFord (l : LitTy) (a : OrderedAig) : Prop where
-  maxVar : 2 * a.maxVarIndex + 1 ≤ l.maxCode
-  vars : a.inputCount + a.latches.length + a.gates.length ≤ a.maxVarIndex
-  latches : ∀ x ∈ a.latches, litOk a.maxVarIndex x.next
-  lits : ∀ x ∈ a.outputs ++ a.bad ++ a.constraints ++ a.justice.flatten ++ a.fairness,
-    litOk a.maxVarIndex x
-  gates : ∀ i (g : OGate), a.gates[i]? = some g →
-    g.in1 ≤ g.in0 ∧ g.in0 ≤ 2 * (a.inputCount + a.latches.length + 1 + i)
-  symbols : symbolsOk (symCount (orderedHeader a)) a.symbols
-  comment : ∀ c, a.comment = some c → validUtf8 c = true
-
-/-- `aig_roundtrip`: the binary writer never panics on a well-formed `OrderedAig` and its output
-is parsed back to the same value. -/
-def aig_roundtrip_full : Prop :=
-  ∀ (l : LitTy) (a : OrderedAig), WFord l a →
-    ∃ bs, writeOrderedAigBinary a = .ok bs ∧
-      (bs.length + 3 ≤ usizeMax → okVal ((parseAig l).run (LR.init bs false)) = some a)
-
-/-! ### instances, by kernel evaluation -/
 
 /-- A circuit with every section, every latch reset form, every symbol kind, a multi-byte name
 and a comment ending in a newline. -/
@@ -143,28 +131,47 @@ def exAig1 : Aig :=
                 ⟨.constraint, 1, [99]⟩, ⟨.justice, 2, [106]⟩, ⟨.fairness, 0, [102]⟩],
     comment := some [104, 105, 10] }
 
+theorem exAig1_domain : AigDomain ⟨8⟩ exAig1 :=
+  { bits := by decide, maxVar := by decide, vars := by decide, inputs := by decide,
+    latches := by decide, lits := by decide, gates := by decide,
+    symbols := by decide +kernel, comment := by decide +kernel, size := by decide +kernel }
+
+/-- The theorem and the kernel agree on it. -/
 example : okVal ((parseAag ⟨8⟩).run (LR.init (writeAig exAig1) false)) = some exAig1 := by
   decide +kernel
 
 /-- A binary circuit over `u64` whose first delta needs the full 10 bytes
-(`input_count = 2^62`), and a latch that resets to itself. -/
+(`input_count = 2^62`), with a latch that resets to itself. -/
 def exOrd1 : OrderedAig :=
   { maxVarIndex := 2 ^ 62 + 2, inputCount := 2 ^ 62, latches := [⟨3, none⟩], outputs := [2 ^ 63 + 4],
     gates := [⟨0, 0⟩], symbols := [⟨.input, 2 ^ 62 - 1, [120]⟩], comment := some [] }
+
+theorem exOrd1_domain : OrdDomain ⟨64⟩ exOrd1 :=
+  { bits := by decide, maxVar := by decide, vars := by decide, latches := by decide,
+    lits := by decide,
+    gates := by
+      intro i g hg
+      cases i with
+      | zero => simp only [exOrd1, List.getElem?_cons_zero, Option.some.injEq] at hg; subst hg; decide
+      | succ i => simp [exOrd1] at hg,
+    symbols := by decide +kernel, comment := by decide +kernel, size := by decide +kernel }
 
 example : (match writeOrderedAigBinary exOrd1 with
     | .ok bs => okVal ((parseAig ⟨64⟩).run (LR.init bs false)) == some exOrd1
     | .error _ => false) = true := by
   decide +kernel
 
-/-- The varint theorem is not vacuous: `2^63` is written as ten bytes. -/
+/-- `2^63` is written as ten bytes. -/
 example : writeBinaryUint (2 ^ 63) = some [128, 128, 128, 128, 128, 128, 128, 128, 128, 1] := by
   decide +kernel
 
 /-- Outside the domain the round trip fails (so the domain predicate is doing work): a symbol
-whose name contains a newline. -/
+whose name contains a newline; a gate whose first input exceeds its own literal makes the writer
+panic. -/
 example : okVal ((parseAag ⟨8⟩).run (LR.init (writeAig
-    { maxVarIndex := 1, inputs := [2], symbols := [⟨.input, 0, [97, 10, 98]⟩] }) false)) = none := by
+    { maxVarIndex := 1, inputs := [2], symbols := [⟨.input, 0, [97, 10, 98]⟩] }) false)) = none ∧
+    (match writeOrderedAigBinary { maxVarIndex := 1, gates := [⟨4, 0⟩] } with
+      | .ok _ => false | .error _ => true) = true := by
   decide +kernel
 
 end Flussab.C03
